@@ -41,3 +41,19 @@ Theorem C09_components_of_set_refuted :
   let ds := [mktdef Proofs.C09.nS false [Own Proofs.C09.na]; mktdef Proofs.C09.nT false [Own Proofs.C09.ne; ComponentsOf Proofs.C09.nS]] in
   expanded_members ds Proofs.C09.nT = Some [Proofs.C09.ne; Proofs.C09.na] /\ linked_members ds Proofs.C09.nT = Some [Proofs.C09.ne].
 Proof. exact Proofs.C09.components_of_set_refuted. Qed.
+
+(* ... but it does hold, for the whole pass over any module and any processing order the names induce, whenever the
+   COMPONENTS OF entries come last and refer to SEQUENCE types that use no COMPONENTS OF themselves: *)
+Theorem C09_pass_depth_one :
+  forall ds n own refs,
+    NoDup (map t_name ds) ->
+    find_def n ds = Some (mktdef n true (map Own own ++ map ComponentsOf refs)) ->
+    (forall r, In r refs -> r <> n /\ exists dr, find_def r ds = Some dr /\ t_is_seq dr = true /\ refs_of (t_items dr) = []) ->
+    linked_members ds n = expanded_members ds n.
+Proof. exact Proofs.C09.link_pass_depth_one. Qed.
+
+Example C09_pass_depth_one_applies :
+  let ds := [mktdef Proofs.C09.nS true [Own Proofs.C09.na]; mktdef Proofs.C09.nT true [Own Proofs.C09.ne; ComponentsOf Proofs.C09.nS]] in
+  linked_members ds Proofs.C09.nT = Some [Proofs.C09.ne; Proofs.C09.na] /\
+  expanded_members ds Proofs.C09.nT = Some [Proofs.C09.ne; Proofs.C09.na].
+Proof. vm_compute. split; reflexivity. Qed.
